@@ -38,6 +38,12 @@ def pair(spec):
         # the property quantifies over scalers returning a finite s > 0 (the packaged scaler returns inf when the
         # projected gradient at x0 vanishes)
         return {"skip": True, "spec": spec, "why": f"scaler returned {s}"}
+    if spec.get("upd", "none") != "none":
+        # with an update function only the scaler's own contract is judged (called once, before the update function, with
+        # the start point, the user's unscaled gradient there and the bounds): Driver trace clauses
+        tr0 = equiv.merge("C17", True, [], [], {"scaler_invoked_once": obs.calls["scaler"] == 1})
+        return {"skip": False, "spec": spec, "equiv": tr0, "driver": a["trace"], "s": s, "relation": "run",
+                "msgs": [ra.message, ""], "nev": [0, 0]}
     log_a = []
     fd = spec.get("jac", "callable") != "callable"
     for e in obs.events:
@@ -124,6 +130,15 @@ def specs(ctx):
         s["scaler"] = float(rng.choice([0.25, 4.0, 64.0, 2.0 ** -10]))
         s["start"] = "interior"
         out.append(s)
+    # a scaler together with an update function that redefines the objective at its first call
+    for i in range(ctx.pick(40, 400)):
+        s = corpus.rand_spec(rng, problems.CONVEX + ["rosenbrock"], nmax=6, allow_cb=False, allow_gcall=False, allow_target=False,
+                             small_budgets=(i % 2 == 0))
+        s["kwargs"]["maxiter"] = min(s["kwargs"].get("maxiter", 10), 10)
+        s["scaler"] = float(10 ** rng.uniform(-2, 2))
+        s["upd"] = "rewrite"
+        s["start"] = "interior"
+        out.append(s)
     # the target already met at the start point (the run returns before any gradient is computed)
     for i in range(ctx.pick(20, 200)):
         s = corpus.rand_spec(rng, problems.CONVEX, nmax=6, allow_cb=False, allow_gcall=False, allow_target=False, small_budgets=False)
@@ -162,6 +177,9 @@ def run(ctx):
     v1 = validate(ctx, [r["equiv"] for r in res], module="Equiv", name="equiv-scaler")
     v2 = validate(ctx, [r["driver"] for r in res], name="driver-scaler")
     for r, a, b in zip(res, v1, v2):
+        conf = sorted(x for x in b if x.startswith("Conf_"))
+        if conf and not (a | {x for x in b if x.startswith(PREFIX)}):
+            ctx.conf_failures.append(f"specification cannot follow a real trace ({conf}); spec={json.dumps(r['spec'])}")
         for c in sorted(a | {x for x in b if x.startswith(PREFIX)}):
             ctx.violation(c, {"kind": "scaler-equivalence", "relation": r["relation"], "spec": r["spec"], "s": r["s"], "messages": r["msgs"],
                               "evaluations": r["nev"],
